@@ -10,6 +10,7 @@ import (
 	"os"
 	"os/exec"
 	"sort"
+	"strings"
 	"sync"
 	"testing"
 
@@ -42,11 +43,48 @@ type c10Case struct {
 	// from StatSeed by a harness-owned generator (splitmix64).
 	Stat     bool   `json:"stat,omitempty"`
 	StatSeed uint64 `json:"stat_seed,omitempty"`
+	// Family of the kept-fraction ids: "" = 32 hex chars; "prefix" = one common prefix of FamLen bytes +
+	// 16 unique hex chars; "suffix" = 16 unique hex chars + one common suffix of FamLen bytes.
+	Family string `json:"family,omitempty"`
+	FamLen int    `json:"fam_len,omitempty"`
+	// Sens: single-byte sensitivity. c10SensPairs pairs of ids of SensLen bytes that differ in exactly one byte
+	// at a position in [SensLo, SensLen) are decided at every rate 2..65.
+	Sens     bool   `json:"sens,omitempty"`
+	SensLo   int    `json:"sens_lo,omitempty"`
+	SensLen  int    `json:"sens_len,omitempty"`
+	SensSeed uint64 `json:"sens_seed,omitempty"`
 }
 
 const c10StatN = 40000
 
 var c10StatRates = []uint64{2, 3, 10, 100, 10000}
+
+const c10SensPairs = 32
+
+var c10FamLens = []int{32, 48, 64, 100, 256, 1024}
+
+// position classes [lo, len) for the byte that differs
+var c10SensClasses = [][2]int{{0, 16}, {16, 32}, {32, 48}, {48, 64}, {64, 65}, {64, 128}, {128, 256}, {256, 1024}}
+
+// c10SensEqualProb: for two independent uniform hash values and a threshold rule keep <=> h <= max/N, the
+// probability that the two decision vectors over N = 2..65 coincide: both values fall between the same two
+// consecutive thresholds. = (1/2)^2 + sum_{N=2..64} (1/N - 1/(N+1))^2 + (1/65)^2  ~ 0.288.
+func c10SensEqualProb() float64 {
+	p := 0.25 + 1.0/(65*65)
+	for n := 2.0; n <= 64; n++ {
+		p += math.Pow(1/n-1/(n+1), 2)
+	}
+	return p
+}
+
+func c10RandASCII(x *uint64, n int) []byte {
+	const alphabet = "abcdefghijklmnopqrstuvwxyz0123456789-_"
+	b := make([]byte, n)
+	for i := range b {
+		b[i] = alphabet[c10Splitmix(x)%uint64(len(alphabet))]
+	}
+	return b
+}
 
 // ---------------------------------------------------------------- SUT access
 
@@ -283,7 +321,7 @@ func genC10Rate(t *rapid.T, kind string) uint64 {
 }
 
 func genC10ID(t *rapid.T) string {
-	switch rapid.IntRange(0, 9).Draw(t, "idshape") {
+	switch rapid.IntRange(0, 10).Draw(t, "idshape") {
 	case 0, 1, 2:
 		return hex.EncodeToString(rapid.SliceOfN(rapid.Byte(), 16, 16).Draw(t, "hex32"))
 	case 3, 4, 5:
@@ -296,6 +334,10 @@ func genC10ID(t *rapid.T) string {
 		// ids are valid UTF-8 throughout: the case (and the query to the second
 		// process) must survive a JSON round trip unchanged.
 		return rapid.StringN(1, 4, 16).Draw(t, "short")
+	case 9:
+		// long ids that share a long prefix (and, within a case, often the whole prefix) and differ at the end
+		l := rapid.SampledFrom([]int{40, 48, 49, 63, 64, 65, 100, 256, 1024}).Draw(t, "longlen")
+		return strings.Repeat("t", l) + rapid.StringMatching(`[0-9a-f]{1,4}`).Draw(t, "longtail")
 	default:
 		return rapid.StringMatching(`[a-z0-9\-]{1,24}`).Draw(t, "ascii")
 	}
@@ -312,6 +354,14 @@ func genC10(t *rapid.T) c10Case {
 	if rapid.IntRange(0, 19).Draw(t, "stat") == 17 { // not the shrink target: minimal cases skip the expensive sub-run
 		c.Stat = true
 		c.StatSeed = rapid.Uint64().Draw(t, "statseed")
+		c.Family = rapid.SampledFrom([]string{"", "prefix", "prefix", "suffix"}).Draw(t, "family")
+		if c.Family != "" {
+			c.FamLen = rapid.SampledFrom(c10FamLens).Draw(t, "famlen")
+		}
+	}
+	if rapid.IntRange(0, 5).Draw(t, "sens") == 4 {
+		cl := rapid.SampledFrom(c10SensClasses).Draw(t, "sensclass")
+		c.Sens, c.SensLo, c.SensLen, c.SensSeed = true, cl[0], cl[1], rapid.Uint64().Draw(t, "sensseed")
 	}
 	return c
 }
@@ -443,32 +493,89 @@ func execC10(c c10Case) vkit.Result {
 
 	if c.Stat {
 		res.Class("stat")
+		res.Class("stat-family=" + c.Family + fmt.Sprintf("/%d", c.FamLen))
 		res.NonTrivial = true
-		ids := make([]string, c10StatN)
 		x := c.StatSeed
+		famLen := c.FamLen
+		if famLen < 0 || famLen > 4096 {
+			famLen = 0
+		}
+		common := string(c10RandASCII(&x, famLen))
+		deciders := make([]c10Decider, len(c10StatRates))
+		kept := make([]int, len(c10StatRates))
+		for i, n := range c10StatRates {
+			deciders[i] = c10New(c.Kind, n)
+		}
 		var buf [16]byte
-		for i := range ids {
+		for i := 0; i < c10StatN; i++ {
 			a, b := c10Splitmix(&x), c10Splitmix(&x)
 			for j := 0; j < 8; j++ {
 				buf[j] = byte(a >> (8 * j))
 				buf[8+j] = byte(b >> (8 * j))
 			}
-			ids[i] = hex.EncodeToString(buf[:])
-		}
-		for _, n := range c10StatRates {
-			d := c10New(c.Kind, n)
-			kept := 0
-			for _, id := range ids {
-				if _, k := d(id); k {
-					kept++
+			var id string
+			switch c.Family {
+			case "prefix": // distinct by construction: the counter is part of the unique part
+				id = common + fmt.Sprintf("%08x", i) + hex.EncodeToString(buf[:4])
+			case "suffix":
+				id = fmt.Sprintf("%08x", i) + hex.EncodeToString(buf[:4]) + common
+			default:
+				id = hex.EncodeToString(buf[:])
+			}
+			for k, d := range deciders {
+				if _, keep := d(id); keep {
+					kept[k]++
 				}
 			}
+		}
+		for k, n := range c10StatRates {
 			p := 1 / float64(n)
 			want := float64(c10StatN) * p
 			band := c10Band(c10StatN, p)
-			if math.Abs(float64(kept)-want) > band {
-				res.Violate(fmt.Sprintf("C10/%s/fraction/N=%d", c.Kind, n), "seed %d: kept %d of %d ids at rate %d, expected %.1f +- %.1f", c.StatSeed, kept, c10StatN, n, want, band)
+			if math.Abs(float64(kept[k])-want) > band {
+				fam := "random-hex"
+				if c.Family != "" {
+					fam = fmt.Sprintf("common-%s-%d-bytes", c.Family, famLen)
+				}
+				res.Violate(fmt.Sprintf("C10/%s/fraction/N=%d", c.Kind, n), "seed %d, id family %s: kept %d of %d distinct ids at rate %d, expected %.1f +- %.1f", c.StatSeed, fam, kept[k], c10StatN, n, want, band)
 			}
+		}
+	}
+
+	if c.Sens && c.SensLen > 0 && c.SensLen <= 4096 && c.SensLo >= 0 && c.SensLo < c.SensLen {
+		res.Class(fmt.Sprintf("sens-pos=[%d,%d)", c.SensLo, c.SensLen))
+		res.NonTrivial = true
+		x := c.SensSeed
+		deciders := make([]c10Decider, 0, 64)
+		for n := uint64(2); n <= 65; n++ {
+			deciders = append(deciders, c10New(c.Kind, n))
+		}
+		differing := 0
+		var example string
+		for pair := 0; pair < c10SensPairs; pair++ {
+			base := c10RandASCII(&x, c.SensLen)
+			pos := c.SensLo + int(c10Splitmix(&x)%uint64(c.SensLen-c.SensLo))
+			other := append([]byte(nil), base...)
+			other[pos] = 'A' + byte(c10Splitmix(&x)%26) // base is lower case / digits / -_ : always a different byte
+			differs := false
+			for _, d := range deciders {
+				_, k1 := d(string(base))
+				_, k2 := d(string(other))
+				if k1 != k2 {
+					differs = true
+					break
+				}
+			}
+			if differs {
+				differing++
+			} else if example == "" {
+				example = fmt.Sprintf("byte %d of a %d-byte id", pos, c.SensLen)
+			}
+		}
+		if differing == 0 {
+			res.Violate(fmt.Sprintf("C10/%s/id-byte-ignored/pos=[%d,%d)", c.Kind, c.SensLo, c.SensLen),
+				"seed %d: %d pairs of %d-byte ids differing in one byte at a position in [%d,%d) all got identical decisions at every rate 2..65 (e.g. %s); for a hash of the whole id this has probability %.3f^%d = %.1e",
+				c.SensSeed, c10SensPairs, c.SensLen, c.SensLo, c.SensLen, example, c10SensEqualProb(), c10SensPairs, math.Pow(c10SensEqualProb(), c10SensPairs))
 		}
 	}
 	return res
@@ -478,13 +585,14 @@ func TestC10(t *testing.T) {
 	defer func() { c10Child().stop() }()
 	vkit.Run(t, vkit.Spec[c10Case]{
 		ID:   "C10",
-		Rule: "rapid-generated (kind, trace-id list, rate list): ids are hex-16/32, arbitrary UTF-8, empty; rates 1..2^31 (DeterministicSampler) / 1..2^64-1 (StressRelief.GetSampleRate) biased to small values and powers of two +-1. Every (id, rate) is decided twice by one instance, by a second fresh instance and by a separately started process (the test binary re-executed in child mode); for stress relief a long-lived node is additionally configured with a generated history of rates and hot-reloaded (UpdateFromConfig on the same instance) to every drawn rate, and must agree with a fresh node at that rate; nesting is checked for every id and every pair of drawn rates; 1 in 20 cases additionally measures the kept fraction over 40000 generated ids at N in {2,3,10,100,10000} against max(6 sigma, Bernstein 1e-10). Non-trivial: some rate > 1 (or a statistical sub-run). Distinct = distinct case JSON.",
+		Rule: "rapid-generated (kind, trace-id list, rate list): ids are hex-16/32, arbitrary UTF-8, empty; rates 1..2^31 (DeterministicSampler) / 1..2^64-1 (StressRelief.GetSampleRate) biased to small values and powers of two +-1. Every (id, rate) is decided twice by one instance, by a second fresh instance and by a separately started process (the test binary re-executed in child mode); for stress relief a long-lived node is additionally configured with a generated history of rates and hot-reloaded (UpdateFromConfig on the same instance) to every drawn rate, and must agree with a fresh node at that rate; nesting is checked for every id and every pair of drawn rates; about 1 in 20 cases additionally measure the kept fraction over 40000 distinct generated ids at N in {2,3,10,100,10000} against max(6 sigma, Bernstein 1e-10), the ids being random hex or a family sharing one common prefix or suffix of 32/48/64/100/256/1024 bytes plus a short unique part; about 1 in 6 cases check single-byte sensitivity: 32 pairs of ids (16..1024 bytes) differing in one byte at a drawn position class (incl. positions >= 64) are decided at all rates 2..65 and must not all have identical decision vectors (probability 0.288^32 = 5e-18 for a hash of the whole id). Non-trivial: some rate > 1 (or a statistical sub-run). Distinct = distinct case JSON.",
 		Assumptions: []string{
 			"the concrete hash function, salt and seed are not pinned: only purity, nesting, reported rate and kept fraction are asserted",
 			"'every node and every run' is observed as: two instances in one process plus one separately started process of the same binary on the same machine",
 			"rates stay inside the property's quantifier (deterministic: 1..2^31, stress relief: 1..2^64-1); SampleRate 0 is rejected by config validation and not generated",
 			"StressRelief is configured through config.MockConfig + UpdateFromConfig (no Start: the sampling decision does not depend on the monitor goroutine)",
 			"kept-fraction ids come from a harness-owned splitmix64 stream seeded by the case, so a case's verdict is reproducible",
+			"'a fixed hash of its trace ID' is read as a hash of the whole id (any length, trace ids are arbitrary strings): the 1/N fraction is also required of families of distinct ids with a long common prefix/suffix, and no byte position may be ignored",
 		},
 		Gen:  genC10,
 		Exec: execC10,
